@@ -1072,3 +1072,362 @@ def rule_box(ctx):
     if len(roles) < need:
         dd.add(bad('BOX-SITES', 'floor', 'anchor-missing: expected >= %d conditional Box productions (input field, @oneOf variant, spread field, alias), found %s' % (need, sorted(roles))))
     return dd.list()
+
+
+# ------------------------------------------------------------------------------------------------
+# ENUM-* (C10)
+# ------------------------------------------------------------------------------------------------
+
+def _find_groups(seq, pred):
+    for el in _walk_seq(seq):
+        if el['t'] == 'group' and pred(el):
+            yield el
+
+
+def _tokens(seq):
+    return [el['s'] if el['t'] == 'tok' else ('‹%s›' % el['t']) for el in seq]
+
+
+def _match_groups(fn_body_seq):
+    """brace groups that directly follow a `match <scrutinee>` inside a fn body"""
+    out = []
+    for seq in _flat_seqs(fn_body_seq):
+        for i, el in enumerate(seq):
+            if el['t'] == 'tok' and el['s'] == 'match':
+                for j in range(i + 1, len(seq)):
+                    if seq[j]['t'] == 'group' and seq[j]['d'] == '{':
+                        out.append((seq[i + 1:j], seq[j]))
+                        break
+    return out
+
+
+def rule_enum(ctx):
+    dd = Dedup()
+    enums = [it for it in ctx.all_items() if it.kind == 'enum' and _is_graphql_enum(it)]
+    if not enums:
+        return [bad('ENUM-SHAPE', 'floor', 'anchor-missing: no enum production with a fixed `Other` variant found')]
+    seen_sites = set()
+    for en in enums:
+        if en.site in seen_sites:
+            continue
+        seen_sites.add(en.site)
+        loc = ctx.site_loc(en.site)
+        fs = site_short(ctx, en.site)
+        inst = fs + '/enum'
+        # -- declaration: rep of variant idents + Other(String)
+        decl_variants = [v for v in en.variants if not (v.name['t'] == 'tok')]
+        other = [v for v in en.variants if v.name['t'] == 'tok' and v.name['s'] == 'Other']
+        if len(decl_variants) != 1 or not any(c[0] == 'rep' for c in decl_variants[0].conds[len(en.conds):]):
+            dd.add(bad('ENUM-SHAPE', inst + '/decl', 'enum declaration is not `#(#variants,)* Other(String)`', loc, 'variants missing/duplicated'))
+            continue
+        if not other or T.render(other[0].payload or []) != '( String )':
+            dd.add(bad('ENUM-OPEN', inst + '/decl', 'no `Other(String)` variant', loc, 'unknown strings cannot be represented'))
+        if derive_may_include(en, ('Serialize', 'Deserialize')) and False:
+            pass
+        decl_ident = decl_variants[0].name['term']
+        # -- the two impls from the same template
+        impls = [it for it in ctx.all_items() if it.kind == 'impl' and it.site == en.site]
+        ser = de = None
+        for im in impls:
+            toks = _tokens(im.header)
+            if 'Serialize' in toks:
+                ser = im
+            if 'Deserialize' in toks:
+                de = im
+        if ser is None or de is None:
+            dd.add(bad('ENUM-SHAPE', inst + '/impls', 'hand-written Serialize/Deserialize impls not found next to the enum', loc,
+                       'the enum is not a bare string on the wire'))
+            continue
+        for im, tr in ((ser, 'Serialize'), (de, 'Deserialize')):
+            lead = [el for el in im.header if el['t'] == 'leaf']
+            if not lead or OPT + 'serde_path' not in TM.fields_in(lead[0]['term']):
+                dd.add(bad('SERDE-PATH', inst + '/' + tr, 'impl trait path does not start with options.serde_path', loc, 'does not resolve'))
+        # serialize: ser.serialize_str(match *self { #(#ctor => #str,)* Name::Other(ref s) => &s, })
+        sbody = ser.body['seq'] if ser.body else []
+        mg = _match_groups(sbody)
+        ser_ok = False
+        ser_pairs = None
+        for scrut, grp in mg:
+            reps = [el for el in grp['seq'] if el['t'] == 'rep']
+            if len(reps) != 1:
+                continue
+            rs = reps[0]['seq']
+            leaves_ = [el for el in rs if el['t'] == 'leaf']
+            arrow = [i for i, el in enumerate(rs) if el['t'] == 'tok' and el['s'] == '=>']
+            if len(arrow) != 1 or len(leaves_) < 2:
+                continue
+            lhs = [el for el in rs[:arrow[0]] if el['t'] == 'leaf']
+            rhs = [el for el in rs[arrow[0] + 1:] if el['t'] == 'leaf']
+            if not lhs or len(rhs) != 1:
+                continue
+            ser_pairs = (lhs[-1]['term'], rhs[0]['term'], rhs[0])
+            rest = _tokens([el for el in grp['seq'] if el['t'] != 'rep'])
+            # catch-all arm: X :: Other ( ref s ) => & s
+            txt = ' '.join(T.render([el]) for el in grp['seq'] if el['t'] != 'rep')
+            if re.search(r'Other \( ref (\w+) \) => & ?\1', txt):
+                ser_ok = True
+            # serialize_str must be the method applied to the match
+            pre = ' '.join(_tokens([e for e in sbody if e['t'] == 'tok']))
+        if ser_pairs is None:
+            dd.add(bad('ENUM-SHAPE', inst + '/serialize', 'serialize body is not `match self { #(ctor => str,)* Other(ref s) => s }`', loc,
+                       'values do not serialize as their GraphQL names'))
+            continue
+        stxt = T.render(sbody)
+        if 'serialize_str' not in stxt:
+            dd.add(bad('ENUM-SHAPE', inst + '/serialize', 'serialize does not call serialize_str', loc, 'enum is not a bare JSON string'))
+        if not ser_ok:
+            dd.add(bad('ENUM-OPEN', inst + '/serialize', 'no `Other(ref s) => &s` arm', loc, 'serialize(deserialize(s)) != s for unknown s'))
+        # deserialize: let s: String = Deserialize::deserialize(d)?; match s.as_str() { #(#str => Ok(#ctor),)* _ => Ok(Name::Other(s)) }
+        dbody = de.body['seq'] if de.body else []
+        de_pairs = None
+        de_open = False
+        for scrut, grp in _match_groups(dbody):
+            reps = [el for el in grp['seq'] if el['t'] == 'rep']
+            if len(reps) != 1:
+                continue
+            rs = reps[0]['seq']
+            arrow = [i for i, el in enumerate(rs) if el['t'] == 'tok' and el['s'] == '=>']
+            if len(arrow) != 1:
+                continue
+            lhs = [el for el in rs[:arrow[0]] if el['t'] == 'leaf']
+            rhs_l = [el for el in _walk_seq(rs[arrow[0] + 1:]) if el['t'] == 'leaf']
+            if len(lhs) != 1 or not rhs_l:
+                continue
+            de_pairs = (rhs_l[-1]['term'], lhs[0]['term'], lhs[0])
+            txt = ' '.join(T.render([el]) for el in grp['seq'] if el['t'] != 'rep')
+            m = re.search(r'_ => Ok \( .*Other \( (\w+) \) \)', txt)
+            scr = ' '.join(_tokens(scrut))
+            if m and re.match(r'^%s( \. as_str \( \))?( \. as_ref \( \))?$' % m.group(1), scr.replace('(  )', '( )')) or (m and scr.split(' ')[0] == m.group(1)):
+                # the catch-all returns the very string that was matched on
+                dtxt = T.render(dbody)
+                if re.search(r'let %s : String = .*Deserialize :: deserialize \( \w+ \) \?' % m.group(1), dtxt):
+                    de_open = True
+        if de_pairs is None:
+            dd.add(bad('ENUM-SHAPE', inst + '/deserialize', 'deserialize body is not `match s { #(str => Ok(ctor),)* _ => Ok(Other(s)) }`', loc,
+                       'names do not deserialize to their variants'))
+            continue
+        if not de_open:
+            dd.add(bad('ENUM-OPEN', inst + '/deserialize', 'no `_ => Ok(Other(s))` arm returning the deserialized string itself', loc,
+                       'unknown strings fail or are altered'))
+        # ENUM-ZIP: same ident term in decl / ser / de; same str term in ser / de
+        s_ctor, s_str, s_el = ser_pairs
+        d_ctor, d_str, d_el = de_pairs
+        if repr(s_ctor) != repr(d_ctor) or repr(s_ctor) != repr(decl_ident):
+            dd.add(bad('ENUM-ZIP', inst, 'variant identifiers differ between declaration/serialize/deserialize: %s | %s | %s' %
+                       (P.show(decl_ident, 1, 4)[:80], P.show(s_ctor, 1, 4)[:80], P.show(d_ctor, 1, 4)[:80]), loc,
+                       'a value maps to another variant (or the code does not compile)'))
+        elif repr(s_str) != repr(d_str):
+            dd.add(bad('ENUM-ZIP', inst, 'wire strings differ between serialize and deserialize: %s | %s' % (P.show(s_str, 1, 4), P.show(d_str, 1, 4)), loc,
+                       'serialize(deserialize(s)) != s'))
+        else:
+            dd.add(ok('ENUM-ZIP', inst, 'declaration, serialize and deserialize zip the same identifier and string collections', loc))
+        # WIRE-1 / OPT-1 for the strings
+        ps = list(TM.paths(s_str))
+        if not ps or any(x for _, x in ps) or any(o != ('field', 'StoredEnum.variants') for o, _ in ps):
+            dd.add(bad('WIRE-1', inst + '/enum-value', 'enum wire string is not the raw schema value name: %s' % P.show(s_str, 1, 5)[:160], loc,
+                       'the server receives / sends a different string'))
+        else:
+            dd.add(ok('WIRE-1', inst + '/enum-value', 'wire string = StoredEnum.variants (untransformed)', loc))
+        neutral = sorted(o[1] for o in TM.all_origins(s_str) if o[0] == 'field' and o[1] in NEUTRAL_OPTIONS)
+        if neutral:
+            dd.add(bad('OPT-1', inst + '/enum-value', 'enum wire string depends on %s' % neutral, loc, 'wire format changes with normalization'))
+        # ident provenance: same collection, elementwise
+        ips = list(TM.paths(_string_of_ident({'t': 'leaf', 'term': s_ctor})))
+        if any(o != ('field', 'StoredEnum.variants') for o, _ in ips):
+            dd.add(bad('ENUM-ZIP', inst + '/ident-origin', 'variant identifiers are not made from StoredEnum.variants', loc, 'pairing broken'))
+        # IDENT-1 for enum values
+        badp = [x for o, x in ips if not x or 'kw' not in x]
+        # under `normalization = rust` the escape must still be last
+        lastbad = [x for o, x in ips if x and x[-1] != 'kw']
+        if badp:
+            dd.add(bad('IDENT-1', inst + '/enum-value', 'enum variant identifier is never keyword-escaped', loc, 'value named like a keyword does not compile'))
+        elif lastbad:
+            dd.add(bad('IDENT-1', inst + '/enum-value', 'a transform [%s] is applied after the keyword escape' % '→'.join(lastbad[0]), loc,
+                       'under normalization=rust `self` becomes `Self` (a keyword again)'))
+        else:
+            dd.add(ok('IDENT-1', inst + '/enum-value', 'escape is the last transform on every path', loc))
+        if ser_ok and de_open:
+            dd.add(ok('ENUM-OPEN', inst, 'Other(String) round-trips unknown strings unchanged', loc))
+        dd.add(ok('ENUM-SHAPE', inst, 'enum + hand-written string (de)serialization', loc))
+        # derive list must not be able to contain Serialize/Deserialize
+        for a in en.attrs:
+            if a.path == 'derive':
+                for el in _walk_seq(a.args):
+                    if el['t'] == 'leaf':
+                        cs = TM.consts_in(el['term'])
+                        if cs & {'Serialize', 'Deserialize'}:
+                            # acceptable only if filtered: checked by DERIVE-FILTER (HIR rule)
+                            pass
+    return dd.list()
+
+
+# ------------------------------------------------------------------------------------------------
+# BODY-* (C05): module constants and the GraphQLQuery impl
+# ------------------------------------------------------------------------------------------------
+
+def rule_body(ctx):
+    dd = Dedup()
+    items, ip, trees, roots = ctx.grammar()
+    mods = [it for it in items if it.kind == 'mod']
+    impls = [it for it in items if it.kind == 'impl']
+    if not mods or not impls:
+        return [bad('BODY-IMPL', 'floor', 'anchor-missing: module / impl GraphQLQuery production not found at the root')]
+    mod = mods[0]
+    loc = ctx.site_loc(mod.site)
+    fs = site_short(ctx, mod.site)
+    consts = {it.name['s']: it for it in mod.items if it.kind == 'const' and it.name and it.name['t'] == 'tok'}
+    # OPERATION_NAME
+    for cname, want, role in (('OPERATION_NAME', {'ResolvedOperation.name'}, 'operation name'), ('QUERY', None, 'query text')):
+        c = consts.get(cname)
+        if c is None:
+            dd.add(bad('BODY-CONST', fs + '/' + cname, 'constant %s not emitted' % cname, loc, 'build_query cannot name the operation/document'))
+            continue
+        vals = [el for el in _walk_seq(c.header) if el['t'] == 'leaf']
+        if len({repr(TM.strip_bases(v['term'])) for v in vals}) != 1:
+            dd.add(bad('BODY-CONST', fs + '/' + cname, 'value of %s is not a single string hole' % cname, loc, ''))
+            continue
+        t = vals[0]['term']
+        ps = list(TM.paths(t))
+        if any(x for _, x in ps):
+            dd.add(bad('WIRE-1', fs + '/' + cname, '%s is transformed on the way: %s' % (cname, P.show(t, 1, 5)[:160]), loc,
+                       'the %s sent to the server is not the source one' % role))
+            continue
+        if want is not None:
+            got = {o[1] for o, _ in ps if o[0] == 'field'}
+            if got != want or any(o[0] != 'field' for o, _ in ps):
+                dd.add(bad('WIRE-1', fs + '/' + cname, '%s does not come from %s: %s' % (cname, sorted(want), P.show(t, 1, 5)[:160]), loc,
+                           'operationName is not the name of an operation of the document'))
+            else:
+                dd.add(ok('WIRE-1', fs + '/' + cname, '%s = ResolvedOperation.name, untransformed' % cname, loc))
+        else:
+            # QUERY: must be the query text parameter / file text (a param of the entry or read_file result)
+            kinds = {o[0] for o, _ in ps}
+            if kinds <= {'param'} or all(o[0] in ('param',) or (o[0] == 'other' and 'read' in str(o[1])) for o, _ in ps):
+                dd.add(ok('WIRE-1', fs + '/QUERY', 'QUERY = the query text handed to the generator (%s)' % sorted(o[1] for o, _ in ps), loc))
+            else:
+                dd.add(bad('WIRE-1', fs + '/QUERY', 'QUERY is not the verbatim query text: %s' % P.show(t, 1, 5)[:160], loc,
+                           'the document sent differs from the source document'))
+    # the impl
+    gq = None
+    for im in impls:
+        if 'GraphQLQuery' in _tokens(im.header):
+            gq = im
+    if gq is None:
+        dd.add(bad('BODY-IMPL', fs + '/impl', 'no `impl graphql_client::GraphQLQuery for ..` production', loc, 'build_query missing'))
+        return dd.list()
+    txt = T.render(gq.body['seq']) if gq.body else ''
+    mod_name = mod.name
+    mn = T.elem_text(mod_name)
+    # types and fields point into the same module hole
+    refs = [el for el in _walk_seq(gq.body['seq']) if el['t'] == 'leaf']
+    same_mod = all(repr(el['term']) == repr(mod_name.get('term')) for el in refs) if mod_name['t'] == 'leaf' else False
+    pat = lambda s: re.search(s, txt) is not None
+    L = r'‹[^›]*›'
+    checks = [
+        ('Variables', pat(r'type Variables = %s :: Variables ;' % L)),
+        ('ResponseData', pat(r'type ResponseData = %s :: ResponseData ;' % L)),
+        ('query', pat(r'query : %s :: QUERY ,' % L)),
+        ('operation_name', pat(r'operation_name : %s :: OPERATION_NAME' % L)),
+        ('variables', pat(r'QueryBody \{ variables ,') and pat(r'fn build_query \( variables : Self :: Variables \)')),
+    ]
+    for name, good in checks:
+        if good and same_mod:
+            dd.add(ok('BODY-IMPL', fs + '/' + name, '`%s` wired to the generated module' % name, loc))
+        else:
+            dd.add(bad('BODY-IMPL', fs + '/' + name, 'impl GraphQLQuery does not wire `%s` to this operation\'s module' % name, loc,
+                       'request body carries another operation\'s data'))
+    # the impl target and the module are made from the same operation name
+    tgt = [el for el in gq.header if el['t'] == 'leaf']
+    if tgt and mod_name['t'] == 'leaf':
+        a = {o for o, _ in TM.paths(tgt[-1]['term'])}
+        b = {o for o, _ in TM.paths(mod_name['term'])}
+        if a == b == {('field', 'ResolvedOperation.name')}:
+            dd.add(ok('BODY-IMPL', fs + '/same-op', 'struct, module and OPERATION_NAME all derive from the same ResolvedOperation.name', loc))
+        else:
+            dd.add(bad('BODY-IMPL', fs + '/same-op', 'impl target %s / module %s do not both derive from the operation name' % (sorted(a), sorted(b)), loc,
+                       'ResponseData/Variables of another operation'))
+    # include_str of the query file
+    inc = consts.get('__QUERY_WORKAROUND')
+    if inc is None:
+        dd.add(bad('INCLUDE-STR', fs, 'no include_str! constant for the query file', loc, 'cargo does not rebuild when the query changes'))
+    else:
+        itxt = T.render(inc.header)
+        leafs = [el for el in _walk_seq(inc.header) if el['t'] == 'leaf']
+        if 'include_str !' in itxt and leafs and OPT + 'query_file' in TM.fields_in(leafs[0]['term']):
+            dd.add(ok('INCLUDE-STR', fs, 'include_str!(options.query_file)', loc))
+        else:
+            dd.add(bad('INCLUDE-STR', fs, 'include_str! argument is not options.query_file', loc, 'stale generated code'))
+    return dd.list()
+
+
+# ------------------------------------------------------------------------------------------------
+# SEL-FLATTEN, DEPR-NOTE (grammar part)
+# ------------------------------------------------------------------------------------------------
+
+def rule_sel_flatten(ctx):
+    dd = Dedup()
+    n_flat = n_named = 0
+    for it in ctx.all_items():
+        if it.kind != 'struct':
+            continue
+        for f in it.fields:
+            if f.name['t'] != 'leaf':
+                continue
+            S = _string_of_ident(f.name)
+            role = role_of({o for o, _ in TM.paths(S)})
+            flat = [a for k, v, a in serde_attrs(f.attrs, f.conds) if k == 'flatten' and _attr_live(a)]
+            loc = ctx.site_loc(f.site)
+            inst = '%s/field[%s]' % (site_short(ctx, f.site), origin_sig(S))
+            if role == 'response-field':
+                n_named += 1
+                if flat:
+                    dd.add(bad('SEL-FLATTEN', inst, 'a named response field can carry serde(flatten)', loc,
+                               'its keys are read from the parent object'))
+                else:
+                    dd.add(ok('SEL-FLATTEN', inst, 'named field: no flatten', loc))
+            elif role == 'spread-field':
+                n_flat += 1
+                if not flat or any(a.rconds for a in flat):
+                    dd.add(bad('SEL-FLATTEN', inst, 'a fragment-spread field is emitted without (unconditional) serde(flatten)', loc,
+                               'serde expects a JSON key named after the fragment'))
+                else:
+                    dd.add(ok('SEL-FLATTEN', inst, 'spread field: flatten', loc))
+    if n_flat < 2 or n_named < 3:
+        dd.add(bad('SEL-FLATTEN', 'floor', 'anchor-missing: expected >=2 spread-field and >=3 named-field productions (found %d/%d)' % (n_flat, n_named)))
+    return dd.list()
+
+
+def rule_depr_note(ctx):
+    dd = Dedup()
+    n = 0
+    for it in ctx.all_items():
+        if it.kind != 'struct':
+            continue
+        for f in it.fields:
+            for a in f.attrs:
+                if a.path != 'deprecated':
+                    continue
+                a.rconds = a.rel(f.conds)
+                n += 1
+                loc = ctx.site_loc(a.site or f.site)
+                inst = '%s/deprecated[%s]' % (site_short(ctx, a.site or f.site), name_sig(f.name))
+                notes = [el for el in _walk_seq(a.args) if el['t'] == 'leaf']
+                for el in notes:
+                    ps = list(TM.paths(el['term']))
+                    if any(x for _, x in ps) or any(o != ('field', 'StoredField.deprecation') for o, _ in ps):
+                        dd.add(bad('DEPR-NOTE', inst, 'note is not the schema\'s deprecation reason verbatim: %s' % P.show(el['term'], 1, 5)[:140], loc,
+                                   'the reason shown to users is altered'))
+                    else:
+                        dd.add(ok('DEPR-NOTE', inst, 'note = StoredField.deprecation (untransformed)', loc))
+                # attribute presence must depend on the field's own deprecation and the strategy only
+                os_ = TM.cond_origins(a.rconds)
+                fields = {o[1] for o in os_ if o[0] == 'field'}
+                if OPT + 'deprecation_strategy' not in fields:
+                    dd.add(bad('DEPR-TABLE', inst + '/strategy', 'deprecated attribute not selected by options.deprecation_strategy', loc,
+                               'allow/warn/deny do not do what is documented'))
+                S = _string_of_ident(f.name) if f.name['t'] == 'leaf' else None
+                if S is not None and role_of({o for o, _ in TM.paths(S)}) == 'spread-field':
+                    dd.add(bad('DEPR-ORIGIN', inst, 'a fragment-spread field can be marked deprecated', loc, 'non-deprecated positions are marked'))
+    if n < 1:
+        dd.add(bad('DEPR-NOTE', 'floor', 'anchor-missing: no #[deprecated] production found'))
+    return dd.list()
